@@ -120,9 +120,13 @@ class C08(Prop):
             "write": rng.choice([0, 1, 3]),
             "fail": 0,
             "misc": 1,
+            "motif": 0,
         }
         if cfg.get("fail_p"):
             w["fail"] = 3
+        if lane == "seams":
+            w["motif"] = rng.choice([0, 1, 2])
+            w["aview"] = max(w["aview"], 2)
         cfg["weights"] = w
         g = Gen(rng, cfg)
         if not cfg["initial_guard"]:
@@ -318,6 +322,64 @@ class C08(Prop):
         g._sink = outer
         g.tracking = was
         g.emit(ev)
+
+    def _g_motif(self, g, w, d):
+        """fault-placement motif for the lock tables (biasing, not an oracle): two caller arrays
+        each kept locked by a long-lived result; a view of the first is used, released (so it has
+        to wait for its base) and dropped while waiting; a view of the second is created next -
+        under LIFO id reuse it inherits the dead view's id - used and released; then the two
+        holders are dropped in a random order."""
+        if d > 0:
+            return
+        r = g.r
+
+        def locked_array():
+            a = g.arr(shape=g.rand_shape(min_ndim=1, max_ndim=2), dtype="f8")
+            h = g._emit_op(r.choice(["mul", "add"]), [{"a": a}, {"c": 2.0}], spell="f")
+            return a, h
+
+        def view_of(a):
+            v = g.new_h()
+            ix = g.rand_basic_index(g.a[a].shape, allow_newaxis=False, allow_int=False)
+            try:
+                sv = g.a[a][ix]
+            except Exception:
+                return None
+            if not isinstance(sv, np.ndarray) or sv.base is None or sv.size == 0:
+                return None
+            g.emit({"k": "aview", "out": v, "src": a, "index": enc_index(ix)})
+            g.a[v] = sv
+            g.a_ro[v] = False
+            return v
+
+        a, ha = locked_array()
+        b, hb = locked_array()
+        if ha is None or hb is None:
+            return
+        v1 = view_of(a)
+        if v1 is None:
+            return
+        y1 = g._emit_op("add", [{"a": v1}, {"c": 1.0}], spell="f")
+        if y1 is None:
+            return
+        g.drop_t(y1)
+        if r.random() < 0.85:
+            g.drop_a(v1)
+        if r.random() < 0.2:
+            self._g_unary(g, w, d)
+        v2 = view_of(b if r.random() < 0.8 else a)
+        if v2 is None:
+            return
+        y2 = g._emit_op("add", [{"a": v2}, {"c": 1.0}], spell="f")
+        if y2 is None:
+            return
+        if r.random() < 0.85:
+            g.drop_t(y2)
+        order = [ha, hb]
+        r.shuffle(order)
+        for h in order:
+            if r.random() < 0.9 and h in g.t:
+                g.drop_t(h, cycle=r.random() < 0.15)
 
     def _g_fail(self, g, w, d):
         """a naturally failing statement (F1)"""
